@@ -5,8 +5,8 @@ ever escapes from the target, so one shallow defect does not end the campaign.
 Failing inputs (smallest per signature), counters and digests of the non-trivial
 strings are written to $C18_FUZZ_OUT when the process ends.
 
-Input format: first byte even -> the rest is UTF-8 text (the formula, raw);
-odd -> FuzzedDataProvider picks a prefix and <= 16 tokens from the dictionary.
+Input format: first byte even -> the rest is UTF-8 text (the formula, raw; "=" is put in
+front when the byte is 2 mod 4); odd -> FuzzedDataProvider picks a prefix and <= 16 tokens from the dictionary.
 """
 import os
 import sys
@@ -20,6 +20,8 @@ if os.path.isdir(DEPS) and DEPS not in sys.path:
     sys.path.append(DEPS)
 
 try:
+    if os.environ.get('C18_NO_ATHERIS'):    # lets the fallback path be exercised
+        raise ImportError('disabled by C18_NO_ATHERIS')
     import atheris
 except Exception as _ex:  # pragma: no cover
     print('NO-ATHERIS %r' % (_ex,))
@@ -42,7 +44,8 @@ def decode(data):
     if not data:
         return '=', 'raw'
     if data[0] % 2 == 0:
-        return data[1:].decode('utf8', 'ignore'), 'raw'
+        t = data[1:].decode('utf8', 'ignore')
+        return ('=' + t if data[0] % 4 == 2 else t), 'raw'
     fdp = atheris.FuzzedDataProvider(data[1:])
     pre = PRE[fdp.ConsumeIntInRange(0, len(PRE) - 1)]
     n = fdp.ConsumeIntInRange(0, 16)
